@@ -572,7 +572,7 @@ def family_R(seed: int, count: int) -> List[Spec]:
                 r = par.add(Node("r" + str(j + 1), "compound"))
                 for k2 in range(2):
                     leaves.append(r.add(Node(f"l{j + 1}{k2 + 1}", "atomic")))
-                if rng.random() < 0.5:
+                if rng.random() < 0.75:
                     r.add(Node(f"f{j + 1}", "final"))
                 r.initial = r.kids[0].key
         else:
@@ -606,13 +606,25 @@ def family_R(seed: int, count: int) -> List[Spec]:
                     t["guard"] = rng.choice(["g1", "g2"])
                 r = rng.random()
                 cands = [x for x in nodes if x is not root and x.kind != "history"]
-                if r < 0.25:
+                region_finals = [x for x in nodes if x.kind == "final" and x is not fin]
+                if r < 0.2:
                     pass
-                elif r < 0.4:
+                elif r < 0.3:
                     t["target"] = "#m.fin"
+                elif r < 0.55 and region_finals:
+                    # completes a region: the done event competes with whatever the actions raised
+                    t["target"] = "#" + ".".join(rng.choice(region_finals).path)
                 else:
                     t["target"] = "#" + ".".join(rng.choice(cands).path)
                 find(cfg, n.path).setdefault("on", {})[ev] = t
+        # eventless transitions in several regions at once (stale / conflicting winners)
+        for n in leaves:
+            if rng.random() < 0.3:
+                tcount += 1
+                outside = rng.random() < 0.5
+                tgt = rng.choice([fin, other]) if outside else rng.choice([k for k in n.parent.kids if k is not n] or [n])
+                find(cfg, n.path)["always"] = {"target": "#" + ".".join(tgt.path), "guard": rng.choice(["g1", "g2"]),
+                                               "actions": [f"tr:always:{tcount}"]}
         for n in nodes:
             if n.kind == "atomic" and rng.random() < 0.25:
                 find(cfg, n.path)["entry"] = find(cfg, n.path)["entry"] + extra_actions()
